@@ -14,6 +14,7 @@ import (
 	"strings"
 	"sync"
 
+	"github.com/cenkalti/backoff/v4"
 	"golang.org/x/sync/errgroup"
 
 	"github.com/restic/restic/internal/backend"
@@ -286,7 +287,7 @@ func engineC44(c *vctx) error {
 	}
 
 	// ---- whole repository: WithBlobUploader on a recording backend ----
-	rrounds := c.n(6, 40)
+	rrounds := c.n(10, 60)
 	for r := 0; r < rrounds; r++ {
 		rng := c.rng.fork()
 		if err := c44Repo(c, rng, r); err != nil {
@@ -342,10 +343,32 @@ func c44Repo(c *vctx, rng *vrng, r int) error {
 		labels[id] = uint64(i + 1)
 		acc = append(acc, c44PB(uint64(i+1), blobs[i].tree, 0))
 	}
-	fault := rng.chance(35)
+	fault := rng.chance(50)
+	onePack := fault && rng.chance(60) // only one pack upload fails (permanently); everything else works
 	e.rec.Reset()
-	if fault {
+	if fault && !onePack {
 		e.rec.CutAt = 1 + rng.intn(6)
+	}
+	if onePack {
+		failNo := rng.intn(4)
+		var mu sync.Mutex
+		seen := map[string]int{}
+		e.rec.OnOp = func(o *vop) error {
+			if o.Op != "Save" || o.Type != backend.PackFile {
+				return nil
+			}
+			mu.Lock()
+			defer mu.Unlock()
+			n, ok := seen[o.Name]
+			if !ok {
+				n = len(seen)
+				seen[o.Name] = n
+			}
+			if n == failNo {
+				return backoff.Permanent(fmt.Errorf("verif: upload of pack %d refused", n))
+			}
+			return nil
+		}
 	}
 	g := 1 + rng.intn(6)
 	serr := repo.WithBlobUploader(ctx, func(ctx context.Context, up restic.BlobSaverWithAsync) error {
@@ -369,6 +392,7 @@ func c44Repo(c *vctx, rng *vrng, r int) error {
 	})
 	mods := e.rec.Mods()
 	e.rec.CutAt = -1
+	e.rec.OnOp = nil
 	e.rec.Reset()
 	packNo := map[string]int{}
 	var packs, bops []string
@@ -425,11 +449,27 @@ func c44Repo(c *vctx, rng *vrng, r int) error {
 			bops = append(bops, "C44m.BSaveIndex "+coqList(ks))
 		}
 	}
+	// the in-memory index of the repository object after the session
+	memSeen := map[int]bool{}
+	var mem []string
+	_ = repo.ListBlobs(ctx, func(pb restic.PackBlob) {
+		k, ok := packNo[pb.PackID().String()]
+		if !ok {
+			k = 9999
+		}
+		if !memSeen[k] {
+			memSeen[k] = true
+			mem = append(mem, fmt.Sprintf("%d%%nat", k))
+		}
+	})
 	kind := "repository"
 	if fault {
 		kind = "repository/upload-failure"
+		if onePack {
+			kind = "repository/one-pack-fails"
+		}
 	}
-	term := fmt.Sprintf("C44m.CR %d %s %s %s %s %s", ps, coqList(acc), coqList(packs), coqList(idx), coqList(bops), coqBool(serr == nil))
+	term := fmt.Sprintf("C44m.CR %d %s %s %s %s %s %s", ps, coqList(acc), coqList(packs), coqList(idx), coqList(bops), coqBool(serr == nil), coqList(mem))
 	c.Case(kind, len(packs) >= 2, total, term,
 		fmt.Sprintf("packSize=%d blobs=%d savers=%d cut=%v -> session ok=%v, %d packs, %d index entries", ps, total, g, fault, serr == nil, len(packs), len(idx)))
 	return nil
